@@ -1224,3 +1224,142 @@ Proof.
         apply (Pnew p Hp). assert (key e' = key p) by (apply Hinj; [apply in_app_iff; left; auto|apply in_app_iff; right; auto|exact E]).
         rewrite <- H. apply in_map. exact He'.
 Qed.
+
+(* ================================================================== the run: invariants of the state machine *)
+Definition StInv (C : cfg) (es0 : list edge) (s : st) : Prop :=
+  Hard (c_nodes C) es0 (c_nodes C) (s_es s) /\ Mirror (c_M C) (s_es s) (s_ds s).
+
+Definition PhInv (C : cfg) (s : st) (ph : phase) : Prop :=
+  match ph with
+  | PhOuter => True
+  | PhCorner0 e0 => In e0 (s_es s)
+  | PhInner e0 c0 sc => In e0 (s_es s) /\ permb c0 (corner (s_es s) (ea e0) (em e0)) = true
+  | PhCorner1 e0 c0 sc e1 =>
+      In e0 (s_es s) /\ permb c0 (corner (s_es s) (ea e0) (em e0)) = true /\ In e1 (s_es s)
+  | PhRandom u0 v0 c0 c1 props top bot =>
+      exists m0 m1 a0 a1 prs,
+        Permutation a0 (corner_edges (s_es s) u0 m0) /\ Permutation a1 (corner_edges (s_es s) v0 m1) /\
+        c0 = map (other u0) a0 /\ c1 = map (other v0) a1 /\
+        SuitFacts (s_es s) u0 v0 m0 m1 a0 a1 /\ map fst prs = a0 /\ Permutation a1 (map snd prs) /\
+        (forall p, In p prs -> et (snd p) = et (fst p)) /\ props = swap_props u0 v0 (c_fixed C) prs
+  end.
+
+Definition NextInv (C : cfg) (es0 : list edge) (n : next) : Prop :=
+  match n with
+  | Go ph' s' _ => StInv C es0 s' /\ PhInv C s' ph'
+  | Halt _ s' _ => StInv C es0 s'
+  end.
+
+Lemma enter_outer_inv C es0 s acc : StInv C es0 s -> NextInv C es0 (enter_outer C s acc).
+Proof.
+  intros H. unfold enter_outer. destruct (Nat.leb (s_cc s) (c_climit C)); [|exact H].
+  destruct (edges (s_ds s)); cbn; [exact H|split; [exact H|exact Logic.I]].
+Qed.
+
+Lemma enter_inner_inv C es0 s e0 c0 sc :
+  StInv C es0 s -> In e0 (s_es s) -> permb c0 (corner (s_es s) (ea e0) (em e0)) = true ->
+  NextInv C es0 (enter_inner C s e0 c0 sc).
+Proof.
+  intros H H0 Hp. unfold enter_inner. destruct (Nat.leb sc (c_slimit C)).
+  - cbn. split; [exact H|split; assumption].
+  - apply enter_outer_inv. exact H.
+Qed.
+
+Lemma draw_edge_in C s i e : draw_edge C s i = Ok e -> In e (s_es s).
+Proof.
+  unfold draw_edge. destruct (ds_draw (s_ds s) i); [|discriminate].
+  unfold find_key. destruct (find _ (s_es s)) eqn:F; [|discriminate]. intros [= <-].
+  apply find_some in F. tauto.
+Qed.
+
+Lemma swap_pre_pairs fixed nodes tg u0 v0 a0 a1 props top bot :
+  length a0 = length a1 -> swap_pre fixed nodes tg u0 v0 a0 a1 = PNeed props top bot ->
+  exists prs, map fst prs = a0 /\ Permutation a1 (map snd prs) /\
+              (forall p, In p prs -> et (snd p) = et (fst p)) /\ props = swap_props u0 v0 fixed prs.
+Proof.
+  intros Hlen. unfold swap_pre. destruct (num_loop fixed nodes tg u0 v0 a1 a0 (rev a1) [] (1 # 1)) as [|c|pr tp] eqn:E;
+    try discriminate.
+  destruct (den_loop nodes tg u0 v0 a0 a1 (1 # 1)); try discriminate.
+  destruct (Qeq_bool bot0 (0 # 1)); [discriminate|]. intros [= -> -> ->].
+  apply num_loop_ok in E. destruct E as [prs [rem' [Hf [Hp [Ht Hprops]]]]].
+  exists prs. split; [exact Hf|]. split; [|split; [exact Ht|exact Hprops]].
+  assert (Hl : length rem' = O).
+  { apply Permutation_length in Hp. rewrite rev_length, app_length, map_length in Hp.
+    assert (length prs = length a0) by (rewrite <- Hf, map_length; reflexivity). lia. }
+  destruct rem'; [|discriminate]. rewrite app_nil_r in Hp.
+  eapply Permutation_trans; [apply Permutation_rev|exact Hp].
+Qed.
+
+Lemma step_inv C es0 ph s e :
+  c_nE C = length es0 -> StInv C es0 s -> PhInv C s ph -> NextInv C es0 (step C ph s e).
+Proof.
+  intros HnE HS HP. pose proof HS as [HH HM]. pose proof HH as [_ [HW [Hlen _]]].
+  destruct ph as [|e0|e0 c0 sc|e0 c0 sc e1|u0 v0 c0 c1 props top bot]; destruct e as [i|c|r]; cbn [step];
+    try exact HS.
+  - (* outer draw *)
+    destruct (draw_edge C s i) as [e0|cc] eqn:D; [|exact HS]. cbn. split; [exact HS|]. eapply draw_edge_in; eauto.
+  - (* corner of u0 *)
+    cbn in HP. destruct (permb c (corner (s_es s) (ea e0) (em e0))) eqn:Pm; [|exact HS].
+    apply enter_inner_inv; assumption.
+  - (* inner draw *)
+    destruct HP as [H0 Hp0]. destruct (draw_edge C s i) as [e1|cc] eqn:D; [|exact HS].
+    apply draw_edge_in in D. destruct (Nat.eqb (et e1) (et e0)); cbn; (split; [exact HS|]); auto.
+  - (* corner of v0, suitability, swap condition *)
+    destruct HP as [H0 [Hp0 H1]].
+    destruct (permb c (corner (s_es s) (ea e1) (em e1))) eqn:Pm; [|exact HS].
+    destruct (genuine_of_permb _ _ _ _ _ HW Hp0) as [a0 [A0 [G0 Hc0]]].
+    destruct (genuine_of_permb _ _ _ _ _ HW Pm) as [a1 [A1 [G1 Hc1]]].
+    rewrite A0, A1.
+    destruct (suitable (s_es s) (ea e0) (ea e1) a0 a1) eqn:Su.
+    + destruct (Nat.leb (c_slimit C) sc); [apply enter_outer_inv; exact HS|].
+      destruct (swap_pre (c_fixed C) (c_nodes C) (c_target C) (ea e0) (ea e1) a0 a1) as [|cc|props top bot] eqn:Sp.
+      * apply enter_outer_inv; exact HS.
+      * exact HS.
+      * cbn. split; [exact HS|].
+        assert (SF : SuitFacts (s_es s) (ea e0) (ea e1) (em e0) (em e1) a0 a1).
+        { apply suitable_facts; [| |exact Su].
+          - intros x Hx. apply (Permutation_in _ G0) in Hx. apply corner_edges_In in Hx. tauto.
+          - intros x Hx. apply (Permutation_in _ G1) in Hx. apply corner_edges_In in Hx. tauto. }
+        destruct (swap_pre_pairs _ _ _ _ _ _ _ _ _ _ (sf_len _ _ _ _ _ _ _ SF) Sp) as [prs [Hf [Hs [Ht Hprops]]]].
+        exists (em e0), (em e1), a0, a1, prs.
+        split; [exact G0|]. split; [exact G1|]. split; [exact Hc0|]. split; [exact Hc1|]. split; [exact SF|].
+        split; [exact Hf|]. split; [exact Hs|]. split; [exact Ht|exact Hprops].
+    + apply enter_inner_inv; assumption.
+  - (* Metropolis draw *)
+    destruct HP as [m0 [m1 [a0 [a1 [prs [G0 [G1 [Hc0 [Hc1 [SF [Hf [Hs [Ht Hprops]]]]]]]]]]]]].
+    destruct (accepts top bot r); [|apply enter_outer_inv; exact HS].
+    destruct (apply_swap_ok (c_M C) (s_es s) u0 v0 m0 m1 a0 a1 (c_fixed C) prs (s_ds s) HW G0 G1 SF Hf Hs Ht HM)
+      as [d' [Hap HM']].
+    rewrite HnE, <- Hlen, Hc0, Hc1, Hprops, Hap.
+    apply enter_outer_inv. split; [|exact HM']. cbn [s_es].
+    eapply Hard_trans; [exact HH|]. eapply swap_hard; eauto.
+Qed.
+
+(* every state of the run satisfies the invariant *)
+Theorem run_inv C es0 : c_nE C = length es0 -> forall evs ph s,
+  StInv C es0 s -> PhInv C s ph ->
+  let '(r, sf, tr) := run C evs ph s in StInv C es0 sf /\ Forall (StInv C es0) tr.
+Proof.
+  intros HnE. induction evs as [|e evs IH]; intros ph s HS HP; cbn [run].
+  - split; [exact HS|constructor].
+  - pose proof (step_inv C es0 ph s e HnE HS HP) as Hn.
+    destruct (step C ph s e) as [ph' s' acc|r s' acc]; cbn in Hn.
+    + destruct Hn as [HS' HP']. specialize (IH ph' s' HS' HP').
+      destruct (run C evs ph' s') as [[r sf] tr]. destruct IH as [I1 I2]. split; [exact I1|].
+      destruct acc; [constructor; assumption|exact I2].
+    + split; [exact Hn|]. destruct acc; [constructor; [exact Hn|constructor]|constructor].
+Qed.
+
+Theorem rewire_inv fixed nodes tg es0 sl cl evs :
+  WF (Z.of_nat (length nodes)) es0 ->
+  let C := mk_cfg fixed nodes tg es0 sl cl in
+  let '(r, sf, tr) := rewire C es0 evs in StInv C es0 sf /\ Forall (StInv C es0) tr.
+Proof.
+  intros HW C. unfold rewire.
+  assert (HS0 : StInv C es0 (mkS es0 (init_ds (c_M C) es0) 0)).
+  { split; [apply Hard_refl; exact HW|apply init_ds_mirror]. }
+  pose proof (enter_outer_inv C es0 _ false HS0) as Hn.
+  destruct (enter_outer C _ false) as [ph s acc|r s acc]; cbn in Hn.
+  - destruct Hn as [HS HP]. apply (run_inv C es0 eq_refl evs ph s HS HP).
+  - split; [exact Hn|constructor].
+Qed.
